@@ -335,7 +335,8 @@ class Logistic(BaseDatafit):
         return grad / len(Xw)
 
     def intercept_update_step(self, y, Xw):
-        return np.mean(- y * sigmoid(- y * Xw)) / 4
+        # gradient w.r.t. the intercept times the inverse of its Lipschitz constant (1/4)
+        return np.mean(- y * sigmoid(- y * Xw)) * 4
 
 
 class QuadraticSVC(BaseDatafit):
